@@ -41,7 +41,7 @@ CHECKS.update({
                "Lean 4 proof (omega on modular arithmetic, induction over offset lists) + differential correspondence of timestamp sequences", "6/C12"),
     "C13": chk("Proof over the record machine: definition_wins, redefinition_is_local, undefined_slot_is_error (both header forms), header_bits (all 256 header bytes), defs_length." + CORR,
                "Lean 4 proof (list update lemmas, decide over 256 header bytes) + differential correspondence of redefinition interleavings", "6/C13"),
-    "C15": chk("Proof: gen_wf — kernel evaluation of the decidable well-formedness predicate over every entry of the regenerated tables (distinct struct index of the Go type the base type/array flag/kind call for, constructor value = that type's invalid value, sizes fit one byte, every struct field named by exactly one entry, known ⇒ type+constructor+row, container members known, field 253 is a date_time), with readable projections. SDK assignment: every (message, field number) shared with the newest bundled SDK workbook must designate the struct field of the workbook's name and type (harness, own xlsx reader); the 23 entries newer than that workbook are compared with a pinned snapshot." + CORR,
+    "C15": chk("Proof: gen_wf — kernel evaluation of the decidable well-formedness predicate over every entry of the regenerated tables (distinct struct index of the Go type the base type/array flag/kind call for, constructor value = that type's invalid value, sizes fit one byte, every struct field named by exactly one entry, known ⇒ type+constructor+row, container members known, field 253 is a date_time), with readable projections. SDK assignment: every (message, field number) shared with the newest bundled SDK workbook must designate the struct field of the workbook's name and type (harness, own xlsx reader); the 23 entries newer than that workbook are compared with a pinned snapshot. Two further oracles name the failing pair when the tables are wrong: every (message, field) entry's constructor value against the invalid value of its own type code, and every container field's message number against the known-message set." + CORR,
                "Lean 4 decide +kernel over tables regenerated by reflection on every run + workbook / snapshot comparison + differential correspondence of every profile entry", "6/C15"),
     "C16": chk("Proof: options_transparent (error, panic, bytes pulled, File apart from the two lists, accumulators are identical under every option set — the decoder program does not take the options), logger_irrelevant, lists_only_when_asked, bump_counts (reported count = number of occurrences counted), bump_keys_nodup, unknown_lists_sorted (insertion sort is sorted and a permutation), unknown_counts_exact (whole files, any of the three header layouts: after a successful Decode the unknown-message counter of n is the number of data records whose live definition names the unknown message n, and the unknown-field counter of (message, field) is the number of records of that known message that carried that unlisted field number — stepItem_unk / stepItems_unk / runItems_unk over the record machine, decode_frame_ok for the bytes)." + CORR,
                "Lean 4 proof (structure of finalize, counting and sorting lemmas) + differential correspondence under all 8 option sets", "6/C16"),
@@ -52,7 +52,7 @@ CHECKS.update({
 CHECKS.update({
     "C04": chk("Proof. burst_detected_bits/bytes (two streams agreeing outside a window of at most 16 bits and differing inside it have different CRC registers from any state), accepted_residue_zero (the decoder's running checksum equals the checksum of exactly the bytes consumed on every path of the record phase, so whatever Decode or CheckIntegrity accepts has frame residue 0), accepted_passes_integrity (Decode accepts ⇒ CheckIntegrity accepts), burst_rejected (any accepted stream, corrupted within 16 bits outside the size and data-size fields, is rejected by both), header_crc_agreement (Header.CheckIntegrity and decodeHeader agree on every header value)." + CORR,
                "Lean 4 proof (GF(2)-linearity of the shift register over BitVec 16; counter-tracking invariant through the decoder programs) + header and burst sweeps against the real entry points", "6/C04"),
-    "C17": chk("Proof (integer part kernel-only; float step under an explicit rounding hypothesis): lat_invalid_iff_partial with lat_pole_counterexample (known finding D14: +90° flagged invalid), lng_invalid_iff, semicircles_id, degrees_exact (|s·180| < 2^53 so the float64 product is exact), time_bijection, time_roundtrip, base_time_iff, from_degrees_within_one (two roundings of relative error ≤ 2^-53 followed by truncation stay within one semicircle; the IEEE-754 standard model is a hypothesis of the theorem). The printed-form clause is checked by enumeration only." + CORR,
+    "C17": chk("Proof (integer part kernel-only; float step under an explicit rounding hypothesis): lat_invalid_iff_partial with lat_pole_counterexample (known finding D14: +90° flagged invalid), lng_invalid_iff, semicircles_id, degrees_exact (|s·180| < 2^53 so the float64 product is exact), time_bijection, time_roundtrip, base_time_iff, from_degrees_within_one (two roundings of relative error ≤ 2^-53 followed by truncation stay within one semicircle; the IEEE-754 standard model is a hypothesis of the theorem). The printed-form clause is checked by enumeration only: every 32-bit value in the thorough tier (printed form for every 61st value and for every value within 4096 of zero, the poles, the ends of the range and the system-time marker), a strided sample plus those windows in the quick tier." + CORR,
                "Lean 4 proof (omega; Mathlib linarith/floor lemmas for the rational bound) + Go-side oracle over all 2^32 values (thorough) with model cross-check", "6/C17"),
 })
 
@@ -79,7 +79,7 @@ CHECKS.update({
 })
 
 CHECKS.update({
-    "C19": chk("Partial: only the table-content clause is a theorem. Proved over GenCore (model of the row filter → struct index → lookup entry pipeline): gen_entries_exact (every enabled row has its entry with the row's field number and type code and struct index = number of enabled rows of the message before it), gen_one_per_enabled_row, gen_disabled_absent, gen_sindex_dense. Observed on the real command on every run (cannot be theorems: exit status, Go type checking, run-to-run determinism): the 5 bundled workbooks (xlsx and SDK-zip input) and dependency-closed product-profile variants built by editing the workbook XML, each generated twice; byte-identical outputs; declared SDK version; tables extracted from the generated sources (go/ast) equal the tables computed from the independently read workbook rows (own zip/XML reader) and by the Lean model; compilation with the minimal support set. Compilation with the whole hand-written library fails for all bundled workbooks: known finding D16.",
+    "C19": chk("Partial: only the table-content clause is a theorem. Proved over GenCore (model of the row filter → struct index → lookup entry pipeline): gen_entries_exact (every enabled row has its entry with the row's field number and type code and struct index = number of enabled rows of the message before it), gen_one_per_enabled_row, gen_disabled_absent, gen_sindex_dense. Observed on the real command on every run (cannot be theorems: exit status, Go type checking, run-to-run determinism): the 5 bundled workbooks (xlsx and SDK-zip input) and dependency-closed product-profile variants built by editing the workbook XML, each generated twice — the second time into the directory that still holds the sources of the previous, larger selection — with byte-identical outputs; declared SDK version; tables extracted from the generated sources (go/ast) equal the tables computed from the independently read workbook rows (own zip/XML reader) and by the Lean model; compilation with the minimal support set. Compilation with the whole hand-written library fails for all bundled workbooks: known finding D16.",
                "Lean 4 proof over the generator-core model + real fitgen runs on workbook variants with an independent workbook reader", "6/C19",
                note="Trusted: the independent xlsx reader and the go/ast extractor of generated tables; the Go compiler for the compilation clause. " + NOTE_COMMON),
 })
